@@ -14,14 +14,14 @@ from .. import core, build, gen, shapes, refcodec as R, tablecheck as TC
 LEVEL = "fault_enumeration"
 
 
-def make_file(ctx, b, wd, name, comp, nblocks, pool=0):
+def make_file(ctx, b, wd, name, comp, nblocks, pool=0, prefix=0):
     """pool > 0: the file is written through a thread pool of that many workers (blocks are then written, counted and
     checksummed on the result handler's path of the writer)"""
     vg = gen.VGen(7000)
     n = nblocks * 4
     entries = [(("key%04d" % i).encode(), vg.val(220 if nblocks > 1 else 30)) for i in range(n)]
     if not pool:
-        path, wrecs, s = TC.write_real_file(ctx, b, wd, name, gen.writer_cfg(comp=comp, ri=2), entries)
+        path, wrecs, s = TC.write_real_file(ctx, b, wd, name, gen.writer_cfg(comp=comp, ri=2, prefix=prefix), entries)
         return path, s
     path = os.path.join(wd, name + ".mtbl")
     if os.path.exists(path):
@@ -74,11 +74,16 @@ def run(ctx):
     plan_files = [(comp, nb, 0) for comp in comps for nb in sizes]
     # the same tables written through a thread pool (the writer's other block-output path)
     plan_files += [("none", 3, 2)] if ctx.quick() else [(comp, nb, 2) for comp in ("none", "zlib", "zstd") for nb in (1, 3)]
-    for (comp, nb, pool) in plan_files:
+    # writers handed a descriptor positioned behind foreign bytes: the blocks then sit at offsets that are not theirs alone
+    # (13 = what older libraries wrote; a page and more; the data blocks ending just past a page that the blocks alone do not reach)
+    plan_files += [("none", 3, 0, px) for px in ((13, 4096, 5000) if ctx.quick() else (1, 13, 512, 4083, 4096, 5000, 8191, 70000))]
+    plan_files += [("none", 1, 0, 4096 - 40), ("zlib", 3, 0, 4096 - 300)]
+    for pf in plan_files:
+        (comp, nb, pool), prefix = pf[:3], (pf[3] if len(pf) > 3 else 0)
         if True:
-            path, s = make_file(ctx, b, wd, "t_%s_%d_%d" % (comp, nb, pool), comp, nb, pool)
+            path, s = make_file(ctx, b, wd, "t_%s_%d_%d_%d" % (comp, nb, pool, prefix), comp, nb, pool, prefix)
             data = open(path, "rb").read()
-            jobs.append((path, -1, len(s["blocks"]), {"comp": comp, "class": "intact", "pool": pool}, s))
+            jobs.append((path, -1, len(s["blocks"]), {"comp": comp, "class": "intact", "pool": pool, "prefix": prefix}, s))
             regions = []
             for bi, blk in enumerate([s["index"]] + s["blocks"]):
                 crc_lo = blk["offset"] + blk["len_prefix"]
@@ -86,7 +91,10 @@ def run(ctx):
                 regions.append((bi, "payload", crc_lo + 4, blk["end"]))
             for (bi, region, lo, hi) in regions:
                 small = (hi - lo) <= 64
-                for (klass, bits) in patterns(rng, lo, hi, ctx.quick(), small):
+                pats = patterns(rng, lo, hi, ctx.quick(), small)
+                if prefix:
+                    pats = pats[:2]
+                for (klass, bits) in pats:
                     img = os.path.join(wd, "i%d.mtbl" % len(jobs))
                     open(img, "wb").write(flip(data, bits))
                     jobs.append((img, bi, len(s["blocks"]), {"comp": comp, "pool": pool, "class": klass, "region": region, "block": bi, "bits": [x - lo * 8 for x in bits][:6]}, s))
